@@ -241,3 +241,56 @@ def rule_guard(crate):
     out.floor("unit_returns", n_ret, 3)
     out.floor("prefixed_returns", k_pref, 2)
     return out
+
+
+def rule_register(crate):
+    """REGISTER — a name handed to PrefixParser::add_other_identifier / add_shadowing_identifier is recorded in
+    `other_identifiers` on EVERY path that returns Ok (must-pass-through on the MIR).  parse() consults that map first;
+    a registration that is skipped for some names lets a parameter or local spelled like a (prefixed) unit be read as
+    that unit — depending on which units happen to be defined at that moment, i.e. on the import order."""
+    from mirlib import Mir
+
+    out = RuleOut("REGISTER", "every successfully registered identifier is recorded in other_identifiers")
+    n = 0
+    for suffix in ("prefix_parser::PrefixParser::add_other_identifier", "prefix_parser::PrefixParser::add_shadowing_identifier"):
+        hfn = crate.find_fn(suffix)
+        f = crate.file_of(hfn)
+        m = Mir(crate, crate.find_mir(suffix))
+        inserts = set()
+        ok_blocks = set()
+        for i, blk in enumerate(m.blocks):
+            t = blk["term"]
+            if t.get("k") == "call":
+                name = t["f"].get("inst") or t["f"].get("fn") or ""
+                if name.split("::")[-1] in ("insert", "entry", "extend") and t.get("args") and "other_identifiers" in m.trace(t["args"][0])["fields"]:
+                    inserts.add(i)
+            for st in blk["stmts"]:
+                rv = st.get("rv") or {}
+                if st.get("k") == "assign" and st["pl"]["l"] == 0 and "p" not in st["pl"] and rv.get("rv") == "aggr" and rv.get("variant") == "Ok":
+                    ok_blocks.add(i)
+        short = suffix.split("::")[-1]
+        n += 1
+        if not inserts:
+            out.violation("%s:records" % short, f, hfn["line"], "%s never inserts into other_identifiers" % short)
+            continue
+        if not ok_blocks:
+            out.error("anchor missing: no `Ok(..)` result in %s" % short)
+            continue
+        # reachability from entry avoiding insert blocks
+        seen = set()
+        stack = [0]
+        while stack:
+            b = stack.pop()
+            if b in seen or b in inserts:
+                continue
+            seen.add(b)
+            stack.extend(m.succ[b])
+        leak = sorted(seen & ok_blocks)
+        if leak:
+            line = m.blocks[leak[0]]["stmts"][-1]["s"][0] if m.blocks[leak[0]]["stmts"] else hfn["line"]
+            out.violation("%s:records" % short, f, line, "%s can return Ok without recording the identifier in other_identifiers: PrefixParser::parse then still resolves the name as a (prefixed) unit — a function parameter or local like `ys`/`ms` is read as yoctosecond/millisecond when the unit `s` is already defined, so the meaning of a module depends on what was imported before it" % short)
+        else:
+            out.ok("%s:records" % short, f, hfn["line"], "every Ok return passes through `other_identifiers.insert`")
+    out.analysed = {"functions": n}
+    out.floor("functions", n, 2)
+    return out
